@@ -29,6 +29,7 @@ func c03(c *Ctx) {
 	c05R3(c, "R5")
 	c03R6(c, "R6")
 	c03R7(c, "R7")
+	sState(c, "R8/S-STATE")
 }
 
 // truncationTracks are the per-iteration tracks of appendEntries' entry loop.
